@@ -426,6 +426,43 @@ impl Builder {
         Some(build_tx(&payer, &[o], &outputs, ts, &[]))
     }
 
+    /// like `payment`, but the fee is a fraction of the spent output (burns value quickly)
+    pub fn payment_fraction(
+        &mut self,
+        rng: &mut Rng,
+        at: &Hash,
+        from: usize,
+        to: usize,
+        fee_permille: u64,
+        exclude: &mut Vec<[u8; 59]>,
+    ) -> Option<Transaction> {
+        let gp = self.params.gp;
+        if from == 0 && self.params.stake > 0 {
+            return None;
+        }
+        let ledger = self.store.ledger(at);
+        let payer = self.actors[from].clone();
+        let mut outs: Vec<OutRef> = ledger
+            .safe_owned_by(&payer.pk, gp)
+            .into_iter()
+            .filter(|o| o.amount >= 100 && !exclude.contains(&o.key()))
+            .collect();
+        if outs.is_empty() {
+            return None;
+        }
+        let o = outs.swap_remove(rng.below(outs.len() as u64) as usize);
+        exclude.push(o.key());
+        let fee = (o.amount as u128 * fee_permille as u128 / 1000) as u64;
+        let rest = o.amount - fee;
+        let pay = rest / 2;
+        let mut outputs = vec![(self.actors[to].pk, pay)];
+        if rest - pay > 0 {
+            outputs.push((payer.pk, rest - pay));
+        }
+        let ts = self.store.get(at).ts + 1 + rng.below(1000);
+        Some(build_tx(&payer, &[o], &outputs, ts, &[]))
+    }
+
     /// grow an honest linear chain by `n` blocks from `tip` with a few fee-paying payments per
     /// block and a golden ticket in every second block (keeps difficulty flat)
     pub async fn grow(
